@@ -1,13 +1,14 @@
 """C17 - copies and pickles are faithful and independent.
 Symbolic: pre-copy history, copy mechanism, post-copy history on either side (values realised at the copy boundary)."""
 import copy
+import functools
 import pickle
 
 import param
 from sx.api import assume, check, cover, untraced, pick, pickbool
 
 PROPERTY = 'C17'
-LABELS = ['C17.succeeds', 'C17.equal', 'C17.no_shared_state', 'C17.deps_work', 'C17.independent', 'C17.foreign_watcher_kept',
+LABELS = ['C17.multi_dep_once', 'C17.succeeds', 'C17.equal', 'C17.no_shared_state', 'C17.deps_work', 'C17.independent', 'C17.foreign_watcher_kept',
           'C17.refs_work_on_copy']
 SHADOWED_BY_KNOWN = {}      # every label is also reached by the shards without the sub-object dependency
 EXPLANATION = ("Harness c17.prog: an object with an Integer, a List, a sub-object, an allow_refs parameter, a depends(watch=True) "
@@ -21,7 +22,7 @@ STUBS = ["the copy call itself runs natively on realised state (pickle's identit
 OUTSIDE = ["values outside [-2,2]", "async references", "class-level watchers"]
 ASSUMPTIONS = ["values in [-2,2] realised before the copy boundary"]
 N_PRE = 5
-N_POST = 7
+N_POST = 9
 
 
 class Sub(param.Parameterized):
@@ -46,10 +47,20 @@ class P(param.Parameterized):
     sub = param.ClassSelector(class_=Sub, default=None)
     r = param.Integer(default=0, allow_refs=True)
     n = param.Integer(default=0)
+    s = param.Selector(objects=[], check_on_set=False)
+    y = param.Integer(default=0)
+    n2 = param.Integer(default=0)
 
     @param.depends('x', watch=True)
     def _m(self):
         self.n += 1
+
+    @param.depends('x', 'y', watch=True)
+    def _m2(self):
+        self.n2 += 1
+
+    def _note(self, tag, event):
+        self.notes = getattr(self, 'notes', []) + [(tag, event.new)]
 
 
 class PS(P):
@@ -73,6 +84,8 @@ def prog(subdep: bool, mech: int, helper: bool, pre1: int, pv1: int, post1: int,
         if helper:
             p.param.watch(h.notify, 'x')
             p.helper = h
+            # a watcher that is a functools.partial of one of the object's own methods
+            p.param.watch(functools.partial(p._note, 'tag'), 'x')
     if pre1 == 0:
         p.x = pv1
     elif pre1 == 1:
@@ -110,8 +123,12 @@ def prog(subdep: bool, mech: int, helper: bool, pre1: int, pv1: int, post1: int,
         inf = dict(info, post=o, side=s)
         if o == 0:
             ch = me.x != v
+            notes_me, notes_other = list(getattr(me, 'notes', [])), list(getattr(other, 'notes', []))
             me.x = v
             check('C17.deps_work', me.n == n0 + (1 if ch else 0), inf)
+            if helper:
+                check('C17.foreign_watcher_kept', getattr(me, 'notes', []) == notes_me + ([('tag', v)] if ch else [])
+                      and getattr(other, 'notes', []) == notes_other, dict(inf, partial=True))
             if helper:
                 mine = hs[s]
                 check('C17.foreign_watcher_kept', mine is not None and mine.calls == hsnap[s] + ([v] if ch else []), inf)
@@ -141,6 +158,18 @@ def prog(subdep: bool, mech: int, helper: bool, pre1: int, pv1: int, post1: int,
             except Exception:       # noqa
                 okr = False
             check('C17.refs_work_on_copy', okr, inf)
+        elif o == 8:
+            # one update changing both dependencies of _m2: exactly one call, on this side only
+            k2, ko = me.n2, other.n2
+            me.param.update(x=me.x + 1, y=me.y + 1)
+            check('C17.multi_dep_once', me.n2 == k2 + 1 and other.n2 == ko, dict(inf, calls=me.n2 - k2))
+            snap = (other.x, list(other.l), other.param.x.bounds, other.n, other.sub.v, other.r)
+        elif o == 7:
+            so = list(other.param.s.objects)
+            sc = list(type(me).param.s.objects)
+            me.param.s.objects.append(v)
+            check('C17.independent', list(other.param.s.objects) == so and list(type(me).param.s.objects) == sc,
+                  dict(inf, what='Selector.objects of the per-instance Parameter'))
         else:
             src.v = 10 + v
         now = (other.x, list(other.l), other.param.x.bounds, other.n, other.sub.v, other.r)
@@ -173,4 +202,4 @@ def shards(tier):
 def bounds(tier):
     return dict(pre_history=1, post_history=2, mechanisms=['copy.deepcopy', 'pickle protocol 2', 'pickle protocol 5'],
                 values='fixed (2, 1, -1)' if tier == 'quick' else '[-2,2]',
-                post_ops=['set x', 'append to l', 'edit x.bounds', 'set sub.v', 'link r to a source Parameter', 'set r plain', 'update the source'])
+                post_ops=['set x', 'append to l', 'edit x.bounds', 'set sub.v', 'link r to a source Parameter', 'set r plain', 'update the source', 'append to the per-instance Selector.objects', 'update(x, y) with a two-parameter dependent method'])
